@@ -3980,6 +3980,8 @@ where
             let base_seed = self.heuristic_rebuild_base_seed();
             let seeds = config.resolve_seeds(base_seed);
             let (candidate, stats, used_seeds) = self.rebuild_with_heuristic(seeds)?;
+            let mut candidate = candidate;
+            candidate.tri.tds.adopt_generation_from(&self.tri.tds);
             *self = candidate;
             return Ok(DelaunayRepairOutcome {
                 stats,
@@ -4011,6 +4013,8 @@ where
                             .to_string(),
                     }
                 );
+                let mut candidate = candidate;
+                candidate.tri.tds.adopt_generation_from(&self.tri.tds);
                 *self = candidate;
                 verif_tick!("rebuild/committed");
                 Ok(DelaunayRepairOutcome {
